@@ -150,7 +150,7 @@ def types(ctx):
     df = repo.func('xtuml.meta:MetaClass.default_value')
     fset = _default_value_types(df)
     gt = repo.func(L + 'guess_type_name')
-    gset = set(n.value.value for n in ast.walk(gt) if isinstance(n, ast.Return) and isinstance(n.value, ast.Constant))
+    gset = set(n.value.value for n in ast.walk(gt) if isinstance(n, ast.Return) and isinstance(n.value, ast.Constant) and isinstance(n.value.value, str))
     isn = repo.func('xtuml.meta:_is_null')
     iset = _literal_chain(isn, {'attr_ty'})
     tables = {'serialize_value.null_value': set(nulls), 'serialize_value.transfer_fn': set(trans), 'deserialize_value': dset,
@@ -624,7 +624,13 @@ def rop_identity(ctx, am):
     sym2slot = {'identifier': 'kind', 'cardinality': 'card', 'identifier_sequence': 'keys', 'STRING': 'phrase', "''": 'phrase'}
     end_fields = [sym2slot.get(s, s) for s in tup_order]
     cr = [p for p in g.productions if p.head == 'create_rop_statement'][0]
-    ok = pm.match_canon(['args = [p[4]]', 'args.extend(p[6])', 'args.extend(p[8])', 'p[0] = CreateAssociationStmt(*args)'], body_without_doc(cr.fn)) is not None
+    from .ctorflow import ctor_binding
+    sigs = repo.signatures()
+    cname, binding = ctor_binding(cr.fn, {'CreateAssociationStmt'}, sigs, arity={'p[6]': 4, 'p[8]': 4})
+    cps = sigs.get('CreateAssociationStmt') or []
+    want_binding = dict([(cps[0], 'p[4]')] + [(cps[1 + i], 'p[6][%d]' % i) for i in range(4)] + [(cps[5 + i], 'p[8][%d]' % i) for i in range(4)]) \
+        if len(cps) == 9 else None
+    ok = binding is not None and binding == want_binding
     r.check(ok and cr.syms[3] == 'RELID' and cr.syms[5] == 'association_end' and cr.syms[7] == 'association_end' and cr.syms[4] == 'FROM' and cr.syms[6] == 'TO',
             'CREATE ROP: (rel id, FROM end fields, TO end fields) are passed to CreateAssociationStmt in this order', cr.fn, construct=LD + '.p_create_rop_statement',
             key='rop-args', msg='p_create_rop_statement no longer builds CreateAssociationStmt(rel_id, *FROM end, *TO end)')
